@@ -460,6 +460,47 @@ func runGet(c Case) (o hx.Outcome) {
 	// has connections: SFTP and the protocol stores run one session here), then the held
 	// chunks are looked at again
 	// (absent IDs last: a casync protocol server ends its session after answering MISSING)
+	// several callers at once, each asking the backend store about ANOTHER good chunk, presence checks and reads
+	// mixed (stores keep per-store state: sessions, buffers, remembered answers): what a read returns must be the
+	// chunk that was asked for
+	if c.Conc > 1 {
+		good := append([]desync.ChunkID{oid}, extraIDs...)
+		type mix struct {
+			id  desync.ChunkID
+			res string
+			det string
+		}
+		var mmu sync.Mutex
+		var bad []mix
+		var wg sync.WaitGroup
+		for g := 0; g < 4; g++ {
+			wg.Add(1)
+			go func(g int) {
+				defer wg.Done()
+				for r := 0; r < 6; r++ {
+					id := good[(g+r)%len(good)]
+					if (g+r)%2 == 0 {
+						lf.store.HasChunk(good[(g+r+1)%len(good)])
+					}
+					ch, err := lf.store.GetChunk(id)
+					if err != nil {
+						continue
+					}
+					if res, det := classifyGet(ch, nil, id, c.Digest); isBad(res) {
+						mmu.Lock()
+						bad = append(bad, mix{id, res, det})
+						mmu.Unlock()
+					}
+				}
+			}(g)
+		}
+		wg.Wait()
+		o.Class("concurrent-mixed-ids")
+		if len(bad) > 0 {
+			o.Fail("C03:"+lf.kind+":"+fmtn+":"+bad[0].res+":concurrent-mixed-ids", "4 callers reading and probing %d different good chunks of the backend at once: GetChunk(%s): %s (%d such answers) — %s",
+				len(good), bad[0].id.String(), clip(bad[0].det), len(bad), where)
+		}
+	}
 	followUps := hold.followUp("a follow-up request through the stack", st.top, extraIDs, nil)
 	followUps += hold.followUp("a follow-up request to the backend", lf.store, append([]desync.ChunkID{oid}, extraIDs...), nil)
 	followUps += hold.followUp("a follow-up request through the stack", st.top, nil, missingIDs[:1])
@@ -515,7 +556,7 @@ var requiredClasses = func() []string {
 	req := []string{"mode:get", "mode:pipeline", "mode:inconsistent", "asserted", "unasserted:all-hops-skipverify", "effective",
 		"changed-but-still-decodes", "result:error", "result:good-data", "hops:server-skip+client-verify", "http:server-side-conversion",
 		"repair:demanded", "repair:replaced", "held-rechecked", "consumer:retry-after-refusal", "consumer:retry-after-refusal:same-size-predecessor",
-		"consumer:retry-after-refusal:" + cReadSeeker, "consumer:retry-after-refusal:" + cSparse, "concurrent-first-call", "digest:" + digestWeakPrefix, "digest:" + digestWeakSuffix,
+		"consumer:retry-after-refusal:" + cReadSeeker, "consumer:retry-after-refusal:" + cSparse, "concurrent-first-call", "concurrent-mixed-ids", "digest:" + digestWeakPrefix, "digest:" + digestWeakSuffix,
 		"consumer:" + cAssemble, "consumer:" + cReadSeeker, "consumer:" + cUnTarIndex, "consumer:" + cSparse,
 		"pipeline:" + cAssemble + ":poisoned-fetch", "pipeline:" + cReadSeeker + ":poisoned-fetch", "pipeline:" + cUnTarIndex + ":poisoned-fetch", "pipeline:" + cSparse + ":poisoned-fetch",
 		"inconsistent:" + cAssemble, "inconsistent:" + cReadSeeker, "inconsistent:" + cUnTarIndex, "inconsistent:" + cSparse,
